@@ -637,8 +637,9 @@ class Gen(object):
     # statement productions that are only parsed (events, bridges, operations, ports, arrays, enumerators)
     # the state machines of the corpus model (vt/adapters/prebuildgen.py declares them): label -> (meaning, data items)
     INST_EVENTS = {'A': {'A1': ("'go'", [('x', 'int'), ('flag', 'bool'), ('s', 'str')]), 'A2': ("'stop now'", []),
-                         'A3': ("'set'", [('n', 'int')])},
+                         'A3': ("'set'", [('n', 'int')]), 'A5': ("'poly'", [('n', 'int')])},
                    'B': {'B1': ("'ping'", [('n', 'int'), ('m', 'int')])}}
+    POLY_EVENTS = ('A5',)
     CLASS_EVENTS = {'A': {'A_A1': ("'tick'", [('n', 'int')]), 'A_A2': ("'reset'", [])}}
 
     def event_stmt(self):
@@ -653,7 +654,8 @@ class Gen(object):
             items = list(items)
             r.shuffle(items)
             data = [{'n': n, 'e': self.maybe_paren(self.expr(ty, self.maxdepth - 1))} for n, ty in items]
-            return {'id': label, 'poly': False, 'meaning': meaning, 'hasdata': bool(data) or r.random() < 0.5, 'data': data}
+            # (A5 is a polymorphic event: it may be written with or without its star)
+            return {'id': label, 'poly': label in self.POLY_EVENTS and r.random() < 0.7, 'meaning': meaning, 'hasdata': bool(data) or r.random() < 0.5, 'data': data}
         targets = [(V(n), c) for n, c in self.live_insts() if c in self.INST_EVENTS]
         if self.home in SELF_HOMES:
             targets.append(({'t': 'self'}, 'A'))
